@@ -130,61 +130,343 @@ Section DfsFacts.
   Qed.
 End DfsFacts.
 
+(* the result stays duplicate-free and inside the universe *)
+Section DfsInv.
+  Variable next : addr -> list addr.
+  Variable U : list addr.
+  Hypothesis HU : forall a, incl (next a) U.
+
+  Lemma dfs_nodup_incl : forall n todo seen r,
+    NoDup seen -> incl seen U -> incl todo U -> dfs next n todo seen = Some r -> NoDup r /\ incl r U.
+  Proof.
+    induction n as [|n IHn]; induction todo as [|a0 rest IHt]; intros seen r Hnd Hs Ht H.
+    - rewrite dfs_nil in H. inversion H; subst. split; assumption.
+    - rewrite dfs_cons in H. destruct (mem a0 seen) eqn:Em; [|discriminate].
+      apply (IHt seen r); try assumption. intros x Hx. apply Ht. now right.
+    - rewrite dfs_nil in H. inversion H; subst. split; assumption.
+    - rewrite dfs_cons in H. destruct (mem a0 seen) eqn:Em.
+      + apply (IHt seen r); try assumption. intros x Hx. apply Ht. now right.
+      + apply mem_false in Em. apply (IHn (next a0 ++ rest) (a0 :: seen) r); try assumption.
+        * constructor; assumption.
+        * intros x [Hx|Hx]; [subst x; apply Ht; now left | now apply Hs].
+        * intros x Hx. apply in_app_or in Hx. destruct Hx as [Hx|Hx]; [now apply (HU a0) | apply Ht; now right].
+  Qed.
+End DfsInv.
+
+Section MsgInd.
+  Variable P : msg -> Prop.
+  Hypothesis Hstep : forall a fs es ns, Forall P ns -> P (Msg a fs es ns).
+  Fixpoint msg_ind' (m : msg) : P m :=
+    match m with
+    | Msg a fs es ns =>
+        Hstep a fs es ns
+          ((fix go (l : list msg) : Forall P l :=
+              match l with
+              | [] => Forall_nil P
+              | x :: l' => Forall_cons x (msg_ind' x) (go l')
+              end) ns)
+    end.
+End MsgInd.
+
+Lemma flat_self m : In m (flat m).
+Proof. destruct m as [a fs es ns]. simpl. apply in_or_app. right. now left. Qed.
+
+Lemma flat_nested : forall t m n, In m (flat t) -> In n (m_nested m) -> In n (flat t).
+Proof.
+  induction t as [a fs es ns IH] using msg_ind'. intros m n Hm Hn. simpl in *.
+  apply in_app_or in Hm. apply in_or_app. destruct Hm as [Hm|[Hm|[]]].
+  - left. apply in_flat_map in Hm. destruct Hm as [c [Hc Hm]]. apply in_flat_map. exists c. split; [assumption|].
+    rewrite Forall_forall in IH. eapply IH; eauto.
+  - left. subst m. simpl in Hn. apply in_flat_map. exists n. split; [assumption | apply flat_self].
+Qed.
+
+Lemma table_nested g m n : In m (table g) -> In n (m_nested m) -> In n (table g).
+Proof.
+  unfold table, all_msgs. intros Hm Hn. apply in_flat_map in Hm. destruct Hm as [f [Hf Hm]].
+  apply in_flat_map in Hm. destruct Hm as [t [Ht Hm]].
+  apply in_flat_map. exists f. split; [assumption|]. apply in_flat_map. exists t. split; [assumption|].
+  eapply flat_nested; eauto.
+Qed.
+
+Lemma flat_addr_rendered : forall t m, In m (flat t) -> In (m_addr m) (rendered_from t).
+Proof.
+  induction t as [a fs es ns IH] using msg_ind'. intros m Hm. simpl in *.
+  apply in_app_or in Hm. destruct Hm as [Hm|[Hm|[]]].
+  - right. apply in_or_app. right. apply in_flat_map in Hm. destruct Hm as [c [Hc Hm]].
+    apply in_flat_map. exists c. split; [assumption|]. rewrite Forall_forall in IH. now apply IH.
+  - subst m. now left.
+Qed.
+
+
 (* ---------------------------------------------------------------- the universe of a graph *)
 Lemma succ_in_universe g rs a : incl (succ g a) (universe g rs).
 Proof.
   unfold succ, universe. destruct (find_msg g a) as [m|] eqn:E; [|apply incl_nil_l].
   unfold find_msg in E. apply find_some in E. destruct E as [Hin _].
-  intros x Hx. apply in_or_app. right. apply in_flat_map. exists m. split; assumption.
+  intros x Hx. apply in_or_app. right. apply in_or_app. right. apply in_flat_map. exists m. split; assumption.
 Qed.
+
+Lemma tops_in_table g m : In m (tops g) -> In m (table g).
+Proof.
+  unfold tops, table, all_msgs. intros H. apply in_flat_map in H. destruct H as [f [Hf Hm]].
+  apply filter_In in Hf. destruct Hf as [Hf _].
+  apply in_flat_map. exists f. split; [assumption|]. apply in_flat_map. exists m. split; [assumption | apply flat_self].
+Qed.
+
+Lemma tops_in_universe g rs m : In m (tops g) -> In (m_addr m) (universe g rs).
+Proof.
+  intros H. unfold universe. apply in_or_app. right. apply in_or_app. left. apply in_map. now apply tops_in_table.
+Qed.
+
+(* ---------------------------------------------------------------- descendants *)
+Lemma rendered_from_desc m : rendered_from m = m_addr m :: desc m.
+Proof. destruct m; reflexivity. Qed.
+
+Lemma has_desc_spec al : forall m, has_desc al m = true <-> exists d, In d (desc m) /\ In d al.
+Proof.
+  induction m as [a fs es ns IH] using msg_ind'. rewrite Forall_forall in IH.
+  unfold desc. simpl. rewrite orb_true_iff. rewrite !existsb_exists. split.
+  - intros [[e [He Hm]]|[n [Hn Hm]]].
+    + exists e. split; [apply in_or_app; now left | now apply mem_In].
+    + apply orb_true_iff in Hm. destruct Hm as [Hm|Hm].
+      * exists (m_addr n). split; [|now apply mem_In]. apply in_or_app. right. apply in_flat_map. exists n.
+        split; [assumption|]. rewrite rendered_from_desc. now left.
+      * apply (IH n Hn) in Hm. destruct Hm as [d [Hd Hal]]. exists d. split; [|assumption].
+        apply in_or_app. right. apply in_flat_map. exists n. split; [assumption|]. rewrite rendered_from_desc. now right.
+  - intros [d [Hd Hal]]. apply in_app_or in Hd. destruct Hd as [Hd|Hd].
+    + left. exists d. split; [assumption | now apply mem_In].
+    + right. apply in_flat_map in Hd. destruct Hd as [n [Hn Hd]]. exists n. split; [assumption|].
+      rewrite rendered_from_desc in Hd. apply orb_true_iff. destruct Hd as [Hd|Hd].
+      * left. subst d. now apply mem_In.
+      * right. apply (IH n Hn). exists d. split; assumption.
+Qed.
+
+(* ---------------------------------------------------------------- the closing loop *)
+Definition edge (g : graph) (a b : addr) : Prop := In b (succ g a).
+Definition closed (g : graph) (al : list addr) : Prop := forall a b, In a al -> edge g a b -> In b al.
+(* the allow-list is closed under outermost enclosing messages *)
+Definition enclosed (g : graph) (al : list addr) : Prop :=
+  forall top d, In top (tops g) -> In d (desc top) -> In d al -> In (m_addr top) al.
+(* one step of the extended relation: an edge of the address graph, or from a declaration to the
+   top-level message of a target file that encloses it *)
+Definition estep (g : graph) (a b : addr) : Prop :=
+  edge g a b \/ exists top, In top (tops g) /\ m_addr top = b /\ In a (desc top).
+Inductive ereach (g : graph) : addr -> addr -> Prop :=
+| er_refl : forall a, ereach g a a
+| er_step : forall a b c, ereach g a b -> estep g b c -> ereach g a c.
+
+Lemma reach_ereach g a b : reach (succ g) a b -> ereach g a b.
+Proof.
+  intros H. induction H as [a | a b c H IH Hc]; [apply er_refl|].
+  eapply er_step; [exact IH | now left].
+Qed.
+
+Lemma ereach_trans g a b c : ereach g a b -> ereach g b c -> ereach g a c.
+Proof.
+  intros H1 H2. induction H2 as [b | b c d H2 IH Hd]; [assumption|].
+  eapply er_step; [apply IH; assumption | exact Hd].
+Qed.
+
+Definition missing (T : list msg) (al : list addr) : nat :=
+  length (filter (fun m => negb (mem (m_addr m) al)) T).
+
+Lemma missing_mono T al al' : incl al al' -> missing T al' <= missing T al.
+Proof.
+  intros Hi. unfold missing. induction T as [|m T IH]; simpl; [lia|].
+  destruct (mem (m_addr m) al) eqn:E.
+  - apply mem_In in E. apply Hi in E. apply mem_In in E. rewrite E. simpl. exact IH.
+  - destruct (mem (m_addr m) al'); simpl; lia.
+Qed.
+
+Lemma missing_strict T al al' m :
+  incl al al' -> In m T -> ~ In (m_addr m) al -> In (m_addr m) al' -> missing T al' < missing T al.
+Proof.
+  intros Hi Hm Hn Hy. unfold missing. induction T as [|x T IH]; [destruct Hm|]. simpl.
+  pose proof (missing_mono T al al' Hi) as Hmono. unfold missing in Hmono.
+  destruct Hm as [Hm|Hm].
+  - subst x. apply mem_false in Hn. apply mem_In in Hy. rewrite Hn, Hy. simpl. lia.
+  - specialize (IH Hm). destruct (mem (m_addr x) al) eqn:E.
+    + apply mem_In in E. apply Hi in E. apply mem_In in E. rewrite E. simpl. exact IH.
+    + destruct (mem (m_addr x) al'); simpl; lia.
+Qed.
+
+Section Closing.
+  Variable g : graph.
+  Variable U : list addr.
+  Variable rs : list addr.
+  Hypothesis HU : forall a, incl (succ g a) U.
+  Hypothesis HT : forall m, In m (tops g) -> In (m_addr m) U.
+  Let n := length U.
+
+  Definition inv (al : list addr) : Prop := NoDup al /\ incl al U.
+  Definition grounded (al : list addr) : Prop := forall x, In x al -> exists r, In r rs /\ ereach g r x.
+
+  Lemma close_pass_cons m rest al :
+    close_pass g n (m :: rest) al =
+    if negb (mem (m_addr m) al) && has_desc al m then
+      match dfs (succ g) n [m_addr m] al with
+      | None => None
+      | Some al1 => match close_pass g n rest al1 with
+                    | None => None
+                    | Some (al2, _) => Some (al2, true)
+                    end
+      end
+    else close_pass g n rest al.
+  Proof. reflexivity. Qed.
+
+  (* what one traversal started inside the loop does *)
+  Lemma loop_dfs m al al1 :
+    In m (tops g) -> inv al -> dfs (succ g) n [m_addr m] al = Some al1 ->
+    incl al al1 /\ In (m_addr m) al1 /\ inv al1 /\ (closed g al -> closed g al1) /\
+    (has_desc al m = true -> grounded al -> grounded al1).
+  Proof.
+    intros Hm [Hnd Hin] H.
+    destruct (dfs_mono _ _ _ _ _ H) as [Hs Ht].
+    split; [exact Hs|]. split; [apply Ht; now left|]. split.
+    { apply (dfs_nodup_incl (succ g) U HU n [m_addr m] al al1); try assumption.
+      intros x [Hx|[]]. subst x. now apply HT. }
+    split.
+    - intros Hc a b Ha Hb. refine (dfs_closed _ _ _ _ _ H _ a b Ha Hb).
+      intros a' b' Ha' Hb'. left. exact (Hc a' b' Ha' Hb').
+    - intros Hd Hg x Hx. destruct (dfs_sound _ _ _ _ _ H x Hx) as [Hx'|[t [[Ht'|[]] Hr]]]; [now apply Hg|].
+      subst t. apply has_desc_spec in Hd. destruct Hd as [d [Hd Hal]].
+      destruct (Hg d Hal) as [r [Hr1 Hr2]]. exists r. split; [assumption|].
+      eapply ereach_trans; [|apply reach_ereach; exact Hr].
+      eapply er_step; [exact Hr2|]. right. exists m. repeat split; assumption.
+  Qed.
+
+  Lemma close_pass_total : forall ts al,
+    incl ts (tops g) -> inv al -> exists al' b, close_pass g n ts al = Some (al', b).
+  Proof.
+    induction ts as [|m rest IH]; intros al Hts Hinv.
+    - simpl. eauto.
+    - rewrite close_pass_cons.
+      assert (Hrest : incl rest (tops g)) by (intros x Hx; apply Hts; now right).
+      destruct (negb (mem (m_addr m) al) && has_desc al m) eqn:Ec; [|now apply IH].
+      destruct Hinv as [Hnd Hin].
+      destruct (dfs_total (succ g) U HU n [m_addr m] al Hnd Hin) as [al1 H1].
+      + intros x [Hx|[]]. subst x. apply HT. apply Hts. now left.
+      + unfold n. lia.
+      + rewrite H1. assert (Hm : In m (tops g)) by (apply Hts; now left).
+        destruct (loop_dfs m al al1 Hm (conj Hnd Hin) H1) as [_ [_ [Hinv1 _]]].
+        destruct (IH al1 Hrest Hinv1) as [al2 [b H2]]. rewrite H2. eauto.
+  Qed.
+
+  Lemma close_pass_props : forall ts al al' b,
+    incl ts (tops g) -> inv al -> close_pass g n ts al = Some (al', b) ->
+    incl al al' /\ inv al' /\ (closed g al -> closed g al') /\ (grounded al -> grounded al') /\
+    (b = false -> al' = al /\ forall m, In m ts -> In (m_addr m) al \/ has_desc al m = false) /\
+    (b = true -> exists m, In m ts /\ ~ In (m_addr m) al /\ In (m_addr m) al').
+  Proof.
+    induction ts as [|m rest IH]; intros al al' b Hts Hinv H.
+    - simpl in H. inversion H; subst. split; [apply incl_refl|]. split; [assumption|].
+      split; [auto|]. split; [auto|]. split; [intros _; split; [reflexivity | intros ? []] | discriminate].
+    - rewrite close_pass_cons in H.
+      assert (Hrest : incl rest (tops g)) by (intros x Hx; apply Hts; now right).
+      assert (Hm : In m (tops g)) by (apply Hts; now left).
+      destruct (negb (mem (m_addr m) al) && has_desc al m) eqn:Ec.
+      + apply andb_true_iff in Ec. destruct Ec as [Ec1 Ec2].
+        destruct (dfs (succ g) n [m_addr m] al) as [al1|] eqn:H1; [|discriminate].
+        destruct (close_pass g n rest al1) as [[al2 b2]|] eqn:H2; [|discriminate].
+        inversion H; subst al' b. clear H.
+        destruct (loop_dfs m al al1 Hm Hinv H1) as [Hi1 [Hm1 [Hinv1 [Hc1 Hg1]]]].
+        destruct (IH al1 al2 b2 Hrest Hinv1 H2) as [Hi2 [Hinv2 [Hc2 [Hg2 _]]]].
+        split; [intros x Hx; apply Hi2; now apply Hi1|]. split; [assumption|].
+        split; [intros Hc; apply Hc2; now apply Hc1|].
+        split; [intros Hg; apply Hg2; now apply Hg1|].
+        split; [discriminate|]. intros _. exists m. split; [now left|]. split.
+        * apply mem_false. now destruct (mem (m_addr m) al).
+        * now apply Hi2.
+      + destruct (IH al al' b Hrest Hinv H) as [Hi [Hinv' [Hc [Hg [Hf Ht]]]]].
+        split; [assumption|]. split; [assumption|]. split; [assumption|]. split; [assumption|]. split.
+        * intros Hb. destruct (Hf Hb) as [He Hall]. split; [assumption|]. intros x [Hx|Hx]; [|now apply Hall].
+          subst x. apply andb_false_iff in Ec. destruct Ec as [Ec|Ec]; [left | now right].
+          apply mem_In. now destruct (mem (m_addr m) al).
+        * intros Hb. destruct (Ht Hb) as [x [Hx Hrest']]. exists x. split; [now right | assumption].
+  Qed.
+
+  Lemma close_loop_total : forall k al,
+    inv al -> missing (tops g) al < k -> exists r, close_loop g n k al = Some r.
+  Proof.
+    induction k as [|k IH]; intros al Hinv Hk; [lia|]. simpl.
+    destruct (close_pass_total (tops g) al (incl_refl _) Hinv) as [al' [b H]]. rewrite H.
+    destruct b; [|eauto].
+    destruct (close_pass_props _ _ _ _ (incl_refl _) Hinv H) as [Hi [Hinv' [_ [_ [_ Ht]]]]].
+    destruct (Ht eq_refl) as [m [Hm [Hn Hy]]].
+    apply IH; [assumption|]. pose proof (missing_strict (tops g) al al' m Hi Hm Hn Hy). lia.
+  Qed.
+
+  Lemma close_loop_props : forall k al r,
+    inv al -> close_loop g n k al = Some r ->
+    incl al r /\ (closed g al -> closed g r) /\ (grounded al -> grounded r) /\ enclosed g r.
+  Proof.
+    induction k as [|k IH]; intros al r Hinv H; [discriminate|]. simpl in H.
+    destruct (close_pass g n (tops g) al) as [[al' b]|] eqn:Hp; [|discriminate].
+    destruct (close_pass_props _ _ _ _ (incl_refl _) Hinv Hp) as [Hi [Hinv' [Hc [Hg [Hf _]]]]].
+    destruct b.
+    - destruct (IH al' r Hinv' H) as [Hi2 [Hc2 [Hg2 He]]].
+      split; [intros x Hx; apply Hi2; now apply Hi|]. split; [intros X; apply Hc2; now apply Hc|].
+      split; [intros X; apply Hg2; now apply Hg | assumption].
+    - inversion H; subst r. clear H. destruct (Hf eq_refl) as [He Hall]. subst al'.
+      split; [apply incl_refl|]. split; [auto|]. split; [auto|].
+      intros top d Htop Hd Hal. destruct (Hall top Htop) as [Hx|Hx]; [assumption|].
+      exfalso. assert (Ht : has_desc al top = true) by (apply has_desc_spec; now exists d). congruence.
+  Qed.
+End Closing.
+
+Lemma missing_le T al : missing T al <= length T.
+Proof. unfold missing. induction T as [|m T IH]; simpl; [lia|]. destruct (negb (mem (m_addr m) al)); simpl; lia. Qed.
 
 Theorem allowlist_total : forall g sel rs, roots g sel = Ok rs -> exists al, allowlist g sel = Ok al.
 Proof.
-  intros g sel rs H. unfold allowlist. rewrite H.
-  destruct (dfs_total (succ g) (universe g rs) (succ_in_universe g rs)
-              (length (universe g rs)) rs [] (NoDup_nil _) (incl_nil_l _)) as [r Hr].
-  - unfold universe. apply incl_appl. apply incl_refl.
-  - simpl. lia.
+  intros g sel rs H. unfold allowlist. rewrite H. cbv zeta.
+  pose proof (succ_in_universe g rs) as HU.
+  assert (Hrs : incl rs (universe g rs)) by (unfold universe; apply incl_appl; apply incl_refl).
+  destruct (dfs_total (succ g) (universe g rs) HU (length (universe g rs)) rs [] (NoDup_nil _) (incl_nil_l _) Hrs) as [al0 H0];
+    [simpl; lia|]. rewrite H0.
+  destruct (dfs_nodup_incl (succ g) (universe g rs) HU _ _ _ _ (NoDup_nil _) (incl_nil_l _) Hrs H0) as [Hnd Hin].
+  destruct (close_loop_total g (universe g rs) rs HU (tops_in_universe g rs) (S (length (tops g))) al0 (conj Hnd Hin)) as [r Hr].
+  - pose proof (missing_le (tops g) al0). lia.
   - rewrite Hr. now exists r.
 Qed.
 
-Definition edge (g : graph) (a b : addr) : Prop := In b (succ g a).
-
-(* the allow-list is the least set that contains the roots and is closed under the edge relation *)
+(* the allow-list is the least set that contains the roots, is closed under the edges of the address
+   graph and under outermost enclosing messages *)
 Theorem allowlist_least_closed : forall g sel al,
   allowlist g sel = Ok al ->
   exists rs, roots g sel = Ok rs /\
     (forall r, In r rs -> In r al) /\
-    (forall a b, In a al -> edge g a b -> In b al) /\
-    (forall x, In x al -> exists r, In r rs /\ reach (succ g) r x).
+    closed g al /\ enclosed g al /\
+    (forall x, In x al -> exists r, In r rs /\ ereach g r x).
 Proof.
   intros g sel al H. unfold allowlist in H.
-  destruct (roots g sel) as [rs|e] eqn:Er; [|discriminate]. exists rs. split; [reflexivity|].
-  destruct (dfs (succ g) (length (universe g rs)) rs []) as [r|] eqn:Ed; [|discriminate].
-  inversion H; subst r. repeat split.
-  - intros r Hr. now apply (proj2 (dfs_mono _ _ _ _ _ Ed)).
-  - intros a b Ha Hb. refine (dfs_closed _ _ _ _ _ Ed _ a b Ha Hb). intros a' b' [].
-  - intros x Hx. destruct (dfs_sound _ _ _ _ _ Ed x Hx) as [[]|Hr]. exact Hr.
-Qed.
-
-Lemma reach_closed g (T : addr -> Prop) :
-  (forall a b, T a -> edge g a b -> T b) -> forall r x, T r -> reach (succ g) r x -> T x.
-Proof.
-  intros Hc r x Hr Hreach. induction Hreach as [r | r b c Hr' IH Hc'].
-  - exact Hr.
-  - eapply Hc; [apply IH; exact Hr | exact Hc'].
+  destruct (roots g sel) as [rs|e] eqn:Er; [|discriminate]. exists rs. split; [reflexivity|]. cbv zeta in H.
+  destruct (dfs (succ g) (length (universe g rs)) rs []) as [al0|] eqn:Ed; [|discriminate].
+  destruct (close_loop g (length (universe g rs)) (S (length (tops g))) al0) as [r|] eqn:El; [|discriminate].
+  inversion H; subst r. clear H.
+  pose proof (succ_in_universe g rs) as HU.
+  assert (Hrs : incl rs (universe g rs)) by (unfold universe; apply incl_appl; apply incl_refl).
+  destruct (dfs_nodup_incl (succ g) (universe g rs) HU _ _ _ _ (NoDup_nil _) (incl_nil_l _) Hrs Ed) as [Hnd Hin].
+  destruct (close_loop_props g (universe g rs) rs HU (tops_in_universe g rs) _ _ _ (conj Hnd Hin) El) as [Hi [Hc [Hg He]]].
+  split; [intros r Hr; apply Hi; now apply (proj2 (dfs_mono _ _ _ _ _ Ed))|].
+  split.
+  { apply Hc. intros a b Ha Hb. refine (dfs_closed _ _ _ _ _ Ed _ a b Ha Hb). intros a' b' []. }
+  split; [exact He|].
+  apply Hg. intros x Hx. destruct (dfs_sound _ _ _ _ _ Ed x Hx) as [[]|[t [Ht Hr]]].
+  exists t. split; [assumption | now apply reach_ereach].
 Qed.
 
 Corollary allowlist_least : forall g sel al rs (T : addr -> Prop),
   allowlist g sel = Ok al -> roots g sel = Ok rs ->
-  (forall r, In r rs -> T r) -> (forall a b, T a -> edge g a b -> T b) ->
+  (forall r, In r rs -> T r) -> (forall a b, T a -> estep g a b -> T b) ->
   forall x, In x al -> T x.
 Proof.
   intros g sel al rs T H Hr Hroots Hclosed x Hx.
-  destruct (allowlist_least_closed g sel al H) as [rs' [Hr' [_ [_ Hsound]]]].
+  destruct (allowlist_least_closed g sel al H) as [rs' [Hr' [_ [_ [_ Hsound]]]]].
   rewrite Hr in Hr'. inversion Hr'; subst rs'.
   destruct (Hsound x Hx) as [r [Hin Hreach]].
-  eapply reach_closed; eauto.
+  clear Hx. induction Hreach as [r | r b c Hreach IH Hc]; [now apply Hroots|].
+  apply (Hclosed b c); [apply IH; exact Hin | exact Hc].
 Qed.
 
 (* ---------------------------------------------------------------- the polling chain: fuel is irrelevant *)
@@ -474,51 +756,6 @@ Proof.
 Qed.
 
 (* ---------------------------------------------------------------- rendering and dangling references *)
-Section MsgInd.
-  Variable P : msg -> Prop.
-  Hypothesis Hstep : forall a fs es ns, Forall P ns -> P (Msg a fs es ns).
-  Fixpoint msg_ind' (m : msg) : P m :=
-    match m with
-    | Msg a fs es ns =>
-        Hstep a fs es ns
-          ((fix go (l : list msg) : Forall P l :=
-              match l with
-              | [] => Forall_nil P
-              | x :: l' => Forall_cons x (msg_ind' x) (go l')
-              end) ns)
-    end.
-End MsgInd.
-
-Lemma flat_self m : In m (flat m).
-Proof. destruct m as [a fs es ns]. simpl. apply in_or_app. right. now left. Qed.
-
-Lemma flat_nested : forall t m n, In m (flat t) -> In n (m_nested m) -> In n (flat t).
-Proof.
-  induction t as [a fs es ns IH] using msg_ind'. intros m n Hm Hn. simpl in *.
-  apply in_app_or in Hm. apply in_or_app. destruct Hm as [Hm|[Hm|[]]].
-  - left. apply in_flat_map in Hm. destruct Hm as [c [Hc Hm]]. apply in_flat_map. exists c. split; [assumption|].
-    rewrite Forall_forall in IH. eapply IH; eauto.
-  - left. subst m. simpl in Hn. apply in_flat_map. exists n. split; [assumption | apply flat_self].
-Qed.
-
-Lemma table_nested g m n : In m (table g) -> In n (m_nested m) -> In n (table g).
-Proof.
-  unfold table, all_msgs. intros Hm Hn. apply in_flat_map in Hm. destruct Hm as [f [Hf Hm]].
-  apply in_flat_map in Hm. destruct Hm as [t [Ht Hm]].
-  apply in_flat_map. exists f. split; [assumption|]. apply in_flat_map. exists t. split; [assumption|].
-  eapply flat_nested; eauto.
-Qed.
-
-Lemma flat_addr_rendered : forall t m, In m (flat t) -> In (m_addr m) (rendered_from t).
-Proof.
-  induction t as [a fs es ns IH] using msg_ind'. intros m Hm. simpl in *.
-  apply in_app_or in Hm. destruct Hm as [Hm|[Hm|[]]].
-  - right. apply in_or_app. right. apply in_flat_map in Hm. destruct Hm as [c [Hc Hm]].
-    apply in_flat_map. exists c. split; [assumption|]. rewrite Forall_forall in IH. now apply IH.
-  - subst m. now left.
-Qed.
-
-Definition closed (g : graph) (al : list addr) : Prop := forall a b, In a al -> edge g a b -> In b al.
 
 (* a message of the table that is allow-listed brings everything declared inside it *)
 Lemma rendered_in_allowlist g al : wf_table g -> closed g al ->
@@ -560,39 +797,6 @@ Proof.
   simpl in Hf. congruence.
 Qed.
 
-(* every type named by a rendered declaration is allow-listed, and rendered when it is a top-level
-   type.  Missing for the full statement: a NESTED type whose outermost enclosing message is not
-   allow-listed (no_dangling_refuted shows that this happens). *)
-Theorem no_dangling_partial : forall g sel al, wf_table g -> allowlist g sel = Ok al ->
-  forall f top m t, In f g -> In top (fi_msgs f) -> In (m_addr top) al ->
-    In m (flat top) -> In t (type_refs m) ->
-    In t al /\
-    (forall f' mt, In f' g -> In mt (fi_msgs f') -> m_addr mt = t ->
-       exists o', prune_file al f' = Some o' /\ In t (rendered_file o')) /\
-    (forall f', In f' g -> In t (fi_enums f') ->
-       exists o', prune_file al f' = Some o' /\ In t (rendered_file o')).
-Proof.
-  intros g sel al Hwf Hal f top m t Hf Htop Htopal Hm Ht.
-  destruct (allowlist_least_closed g sel al Hal) as [rs [_ [_ [Hcl _]]]].
-  assert (Htab : forall x, In x (flat top) -> In x (table g)).
-  { intros x Hx. unfold table, all_msgs. apply in_flat_map. exists f. split; [assumption|].
-    apply in_flat_map. exists top. split; assumption. }
-  assert (Hmal : In (m_addr m) al).
-  { apply (rendered_in_allowlist g al Hwf Hcl top); [apply Htab; apply flat_self | assumption |].
-    now apply flat_addr_rendered. }
-  assert (Htal : In t al).
-  { apply (Hcl (m_addr m) t Hmal). unfold edge, succ. rewrite (Hwf m (Htab m Hm)). now apply type_refs_targets. }
-  split; [exact Htal|]. split.
-  - intros f' mt Hf' Hmt Hmt'. exists (pruned al f'). split.
-    + apply (prune_file_some_msg al f' t); [|exact Htal]. subst t. apply in_map.
-      unfold all_msgs. apply in_flat_map. exists mt. split; [assumption | apply flat_self].
-    + unfold rendered_file, pruned; simpl. apply in_or_app. right. apply in_flat_map. exists mt. split.
-      * apply filter_In. split; [assumption|]. apply mem_In. now rewrite Hmt'.
-      * destruct mt as [a0 fs0 es0 ns0]. simpl in *. now left.
-  - intros f' Hf' Hen. exists (pruned al f'). split.
-    + apply (prune_file_some_enum al f' t); [|exact Htal]. unfold all_enums. apply in_or_app. now left.
-    + unfold rendered_file, pruned; simpl. apply in_or_app. left. apply filter_In. split; [assumption | now apply mem_In].
-Qed.
 
 Lemma dangling_spec g out d t :
   In (d, t) (dangling g out) <->
@@ -607,6 +811,157 @@ Proof.
   - intros [m [Hm [Hd [Hr [Ht Hn]]]]]. exists m. split; [assumption|]. apply in_map_iff. exists t. subst d.
     split; [reflexivity|]. apply filter_In. split; [assumption|]. apply andb_true_iff. split; [now apply mem_In|].
     apply mem_false in Hn. now rewrite Hn.
+Qed.
+
+(* ---------------------------------------------------------------- no dangling reference *)
+Lemma enums_rendered : forall m e, In e (enums_of m) -> In e (rendered_from m).
+Proof.
+  induction m as [a fs es ns IH] using msg_ind'. intros e He. simpl in *. right.
+  apply in_app_or in He. apply in_or_app. destruct He as [He|He]; [now left|]. right.
+  apply in_flat_map in He. destruct He as [n [Hn He]]. apply in_flat_map. exists n. split; [assumption|].
+  rewrite Forall_forall in IH. now apply IH.
+Qed.
+
+(* a type of a target file is a top-level enum, or is declared by (inside) a top-level message *)
+Lemma target_type_cases g t : In t (target_types g) ->
+  exists f, In f g /\ fi_target f = true /\
+    (In t (fi_enums f) \/ exists top, In top (fi_msgs f) /\ In t (rendered_from top)).
+Proof.
+  unfold target_types. intros H. apply in_flat_map in H. destruct H as [f [Hf H]].
+  apply filter_In in Hf. destruct Hf as [Hf Ht]. exists f. split; [assumption|]. split; [assumption|].
+  apply in_app_or in H. destruct H as [H|H].
+  - right. apply in_map_iff in H. destruct H as [x [Hx H]]. unfold all_msgs in H.
+    apply in_flat_map in H. destruct H as [top [Htop H]]. exists top. split; [assumption|].
+    subst t. now apply flat_addr_rendered.
+  - unfold all_enums in H. apply in_app_or in H. destruct H as [H|H]; [now left|]. right.
+    apply in_flat_map in H. destruct H as [top [Htop H]]. exists top. split; [assumption | now apply enums_rendered].
+Qed.
+
+Lemma in_rendered out o t : In o out -> o_target o = true -> In t (rendered_file o) -> In t (rendered out).
+Proof.
+  intros Ho Ht Hr. unfold rendered. apply in_flat_map. exists o. split; [|assumption].
+  apply filter_In. split; assumption.
+Qed.
+
+(* an output that still has every top-level declaration of every target file has every target type *)
+Definition covers (g : graph) (out : list ofile) : Prop :=
+  forall f, In f g -> fi_target f = true ->
+    exists o, In o out /\ o_target o = true /\ o_top o = fi_msgs f /\ o_top_enums o = fi_enums f.
+
+Lemma covers_rendered g out t : covers g out -> In t (target_types g) -> In t (rendered out).
+Proof.
+  intros Hc Ht. destruct (target_type_cases g t Ht) as [f [Hf [Htg Hcase]]].
+  destruct (Hc f Hf Htg) as [o [Ho [Hot [Htop Hen]]]]. apply (in_rendered out o t Ho Hot).
+  unfold rendered_file. rewrite Htop, Hen. apply in_or_app. destruct Hcase as [He|[top [Htop' Hr]]]; [now left|].
+  right. apply in_flat_map. exists top. split; assumption.
+Qed.
+
+Lemma covers_full g : covers g (map full_ofile g).
+Proof.
+  intros f Hf Ht. exists (full_ofile f). split; [now apply in_map|]. unfold full_ofile; simpl. auto.
+Qed.
+
+Lemma covers_internal g sel : covers g (deps_of g ++ map (internal_file sel) (filter fi_target g)).
+Proof.
+  intros f Hf Ht. exists (internal_file sel f). split.
+  - apply in_or_app. right. apply in_map. apply filter_In. split; assumption.
+  - unfold internal_file; simpl. auto.
+Qed.
+
+Lemma keep_some_in {A B} (F : A -> option B) l x o : In x l -> F x = Some o -> In o (keep_some (map F l)).
+Proof.
+  induction l as [|y l IH]; intros Hx Ho; [destruct Hx|]. simpl. destruct Hx as [Hx|Hx].
+  - subst y. rewrite Ho. now left.
+  - destruct (F y); [right|]; now apply IH.
+Qed.
+
+Lemma keep_some_inv {A B} (F : A -> option B) l o : In o (keep_some (map F l)) -> exists x, In x l /\ F x = Some o.
+Proof.
+  induction l as [|y l IH]; intros H; [destruct H|]. simpl in H. destruct (F y) as [b|] eqn:E.
+  - destruct H as [H|H]; [subst b; exists y; split; [now left | assumption]|].
+    destruct (IH H) as [x [Hx Hf]]. exists x. split; [now right | assumption].
+  - destruct (IH H) as [x [Hx Hf]]. exists x. split; [now right | assumption].
+Qed.
+
+Lemma prune_file_some al f o : prune_file al f = Some o -> o = pruned al f.
+Proof.
+  intros H. destruct (prune_file_cases al f) as [[H' _]|[H' _]]; rewrite H' in H; [now inversion H | discriminate].
+Qed.
+
+(* the selective branch: with an allow-list closed under edges and under enclosing messages, every
+   type of the target package that a kept declaration names is itself rendered *)
+Lemma no_dangling_selective g al : wf_table g -> closed g al -> enclosed g al ->
+  let out := deps_of g ++ keep_some (map (prune_file al) (filter fi_target g)) in
+  forall m t, In m (rendered_nodes out) -> In t (type_refs m) -> In t (target_types g) -> In t (rendered out).
+Proof.
+  intros Hwf Hcl Hen out m t Hm Ht Htt.
+  (* where m comes from *)
+  unfold rendered_nodes in Hm. apply in_flat_map in Hm. destruct Hm as [o [Ho Hm]].
+  apply filter_In in Ho. destruct Ho as [Ho Hot]. apply in_app_or in Ho. destruct Ho as [Ho|Ho].
+  { unfold deps_of in Ho. apply in_map_iff in Ho. destruct Ho as [f [Hf Ho]]. apply filter_In in Ho.
+    subst o. simpl in Hot. destruct Ho as [_ Ho]. rewrite Hot in Ho. discriminate. }
+  apply keep_some_inv in Ho. destruct Ho as [f [Hf Ho]]. apply prune_file_some in Ho. subst o.
+  apply filter_In in Hf. destruct Hf as [Hf Hft].
+  apply in_flat_map in Hm. destruct Hm as [top [Htop Hm]]. unfold pruned in Htop; simpl in Htop.
+  apply filter_mem_iff in Htop. destruct Htop as [Htop Htopal].
+  assert (Htab : forall x, In x (flat top) -> In x (table g)).
+  { intros x Hx. unfold table, all_msgs. apply in_flat_map. exists f. split; [assumption|].
+    apply in_flat_map. exists top. split; assumption. }
+  assert (Hmal : In (m_addr m) al).
+  { apply (rendered_in_allowlist g al Hwf Hcl top); [apply Htab; apply flat_self | assumption |].
+    now apply flat_addr_rendered. }
+  assert (Htal : In t al).
+  { apply (Hcl (m_addr m) t Hmal). unfold edge, succ. rewrite (Hwf m (Htab m Hm)). now apply type_refs_targets. }
+  (* where t is declared *)
+  destruct (target_type_cases g t Htt) as [f' [Hf' [Hft' Hcase]]].
+  assert (Hin' : In f' (filter fi_target g)) by (apply filter_In; split; assumption).
+  destruct Hcase as [He|[top' [Htop' Hr]]].
+  - assert (Hp : prune_file al f' = Some (pruned al f')).
+    { apply (prune_file_some_enum al f' t); [|exact Htal]. unfold all_enums. apply in_or_app. now left. }
+    apply (in_rendered out (pruned al f') t).
+    + apply in_or_app. right. eapply keep_some_in; eauto.
+    + unfold pruned; simpl. exact Hft'.
+    + unfold rendered_file, pruned; simpl. apply in_or_app. left. apply filter_mem_iff. split; assumption.
+  - assert (Htop'al : In (m_addr top') al).
+    { rewrite rendered_from_desc in Hr. destruct Hr as [Hr|Hr]; [now rewrite Hr|].
+      apply (Hen top' t); [|assumption|assumption]. unfold tops. apply in_flat_map. exists f'. split; assumption. }
+    assert (Hp : prune_file al f' = Some (pruned al f')).
+    { apply (prune_file_some_msg al f' (m_addr top')); [|exact Htop'al]. apply in_map.
+      unfold all_msgs. apply in_flat_map. exists top'. split; [assumption | apply flat_self]. }
+    apply (in_rendered out (pruned al f') t).
+    + apply in_or_app. right. eapply keep_some_in; eauto.
+    + unfold pruned; simpl. exact Hft'.
+    + unfold rendered_file, pruned; simpl. apply in_or_app. right. apply in_flat_map. exists top'. split; [|assumption].
+      apply filter_mem_iff. split; assumption.
+Qed.
+
+(* C16, "closed set of types": whatever API.build returns, every type of the target package named by
+   a field of a rendered message declaration is itself rendered.
+   wf_table (unique addresses) is needed because the model follows a field's type by looking its
+   ADDRESS up in the table, where the code follows an object reference: only with unique addresses
+   are the two the same thing.  protoc guarantees it; the harness evaluates wf_tableb on every graph. *)
+Theorem no_dangling : forall g pkg l out, wf_table g -> build g pkg l = Built out ->
+  forall m t, In m (rendered_nodes out) -> In t (type_refs m) -> In t (target_types g) -> In t (rendered out).
+Proof.
+  intros g pkg l out Hwf H m t Hm Ht Htt. unfold build in H.
+  destruct (validate (all_methods g) l); [|discriminate].
+  destruct (setting_for pkg l) as [s|].
+  - destruct (ls_methods s) as [|m0 ms].
+    + inversion H; subst. apply (covers_rendered g); [apply covers_full | assumption].
+    + destruct (ls_internal s).
+      * inversion H; subst. apply (covers_rendered g); [apply covers_internal | assumption].
+      * destruct (allowlist g (m0 :: ms)) as [al|e] eqn:Ea; [|discriminate]. inversion H; subst out. clear H.
+        destruct (allowlist_least_closed g _ al Ea) as [rs [_ [_ [Hcl [Hen _]]]]].
+        apply (no_dangling_selective g al Hwf Hcl Hen m t); assumption.
+  - inversion H; subst. apply (covers_rendered g); [apply covers_full | assumption].
+Qed.
+
+Corollary no_dangling_list : forall g pkg l out, wf_table g -> build g pkg l = Built out -> dangling g out = [].
+Proof.
+  intros g pkg l out Hwf H. destruct (dangling g out) as [|[d t] rest] eqn:E; [reflexivity|]. exfalso.
+  assert (Hin : In (d, t) (dangling g out)) by (rewrite E; now left).
+  apply dangling_spec in Hin. destruct Hin as [m [Hm [_ [Ht [Htt Hn]]]]].
+  apply Hn. eapply no_dangling; eauto.
 Qed.
 
 (* ---------------------------------------------------------------- decidable well-formedness *)
@@ -649,30 +1004,28 @@ Definition wit_g : graph :=
      []].
 Definition wit_pkg : string := "google.example.library.v1".
 Definition wit_l : list libsetting := [mkLS wit_pkg [P "Library.GetThing"] false].
-Definition wit_out : list ofile :=
-  match build wit_g wit_pkg wit_l with Built o => o | _ => [] end.
-
-(* the faithful model violates "every type named by a rendered declaration is rendered":
-   Outer.Inner is allow-listed, Outer is not, so Inner is never rendered *)
-Theorem no_dangling_refuted :
-  exists g pkg l out al d t,
-    wf_table g /\ build g pkg l = Built out /\
-    (exists s, setting_for pkg l = Some s /\ allowlist g (ls_methods s) = Ok al) /\
-    (exists m, In m (rendered_nodes out) /\ m_addr m = d /\ In t (type_refs m)) /\
-    In t (target_types g) /\ In t al /\ ~ In t (rendered out).
+(* the former counterexample (DESIGN section 9 no. 4, fixed by 7cf64eb): Outer is not reachable from
+   GetThing, but it encloses the allow-listed Outer.Inner and Outer.Kind, so the closing loop keeps it
+   and both nested types are rendered inside it *)
+Example ex_enclosing_kept :
+  wf_table wit_g /\
+  has_desc [P "Outer.Inner"] (Msg (P "Outer") [fld_m (P "Outer.Inner")] [P "Outer.Kind"] [Msg (P "Outer.Inner") [fld_s] [] []]) = true /\
+  match allowlist0 wit_g [P "Library.GetThing"], allowlist wit_g [P "Library.GetThing"], build wit_g wit_pkg wit_l with
+  | Ok al0, Ok al, Built out =>
+      mem (P "Outer") al0 = false /\ mem (P "Outer.Inner") al0 = true /\
+      mem (P "Outer") al = true /\ mem (P "PutOuterRequest") al = false /\
+      mem (P "Outer.Inner") (rendered out) = true /\ mem (P "Outer.Kind") (rendered out) = true /\
+      option_map (fun o => map m_addr (o_top o)) (find_ofile out "google/example/library/v1/library.proto")
+        = Some [P "Outer"; P "Thing"; P "GetThingRequest"] /\
+      existsb (fun m => String.eqb (m_addr m) (P "GetThingRequest") && mem (P "Outer.Inner") (type_refs m)) (rendered_nodes out) = true /\
+      mem (P "Outer.Inner") (target_types wit_g) = true /\
+      dangling wit_g out = []
+  | _, _, _ => False
+  end.
 Proof.
-  exists wit_g, wit_pkg, wit_l, wit_out.
-  exists [P "Thing"; P "Outer.Kind"; P "Outer.Inner"; P "GetThingRequest"; P "Library.GetThing"; P "Library"].
-  exists (P "GetThingRequest"), (P "Outer.Inner").
   split; [apply wf_tableb_sound; vm_compute; reflexivity|].
   split; [vm_compute; reflexivity|].
-  split; [eexists; split; vm_compute; reflexivity|].
-  assert (Hd : In (P "GetThingRequest", P "Outer.Inner") (dangling wit_g wit_out)).
-  { vm_compute. left. reflexivity. }
-  apply dangling_spec in Hd. destruct Hd as [m [H1 [H2 [H3 [H4 H5]]]]].
-  split; [exists m; repeat split; assumption|].
-  split; [assumption|]. split; [|assumption].
-  vm_compute. right. right. left. reflexivity.
+  vm_compute. repeat split; reflexivity.
 Qed.
 
 (* a larger graph: a dependency file, nested and recursive types, a map entry, an LRO, resource
@@ -801,26 +1154,6 @@ Proof.
   - intros s m [Hs|[Hs|[]]] Hm Hn; subst s; simpl in Hm; destruct Hm as [Hm|[]]; subst m; try discriminate.
     vm_compute. reflexivity.
   - intros fuel Hf m. apply expand_fuel; simpl; lia.
-Qed.
-
-Definition ex_resources : file :=
-  mkFile "google/example/library/v1/resources.proto" true [P "TopKind"]
-     [Msg (P "Shelf") [fld_s; fld_m (P "Shelf.Slot"); fld_m (P "Shelf.LabelsEntry"); fld_m "google.dep.Meta"] [P "Shelf.Tier"]
-          [Msg (P "Shelf.Slot") [fld_m (P "Shelf"); fld_e (P "Shelf.Tier")] [] [];
-           Msg (P "Shelf.LabelsEntry") [fld_s; fld_s] [] []];
-      Msg (P "Book") [fld_s; fld_r "library.example.com/Shelf"; fld_e (P "TopKind")] [] [];
-      Msg (P "Unused") [fld_m (P "Unused")] [] []]
-     []
-     [("library.example.com/Vault", ""); ("library.example.com/Shelf", P "Shelf"); ("library.example.com/Book", P "Book")].
-
-Example ex_no_dangling_partial_hyps :
-  exists f top m t, In f ex_g /\ In top (fi_msgs f) /\ In (m_addr top) ex_al /\ In m (flat top) /\ In t (type_refs m)
-                    /\ m_addr m = P "Shelf.Slot" /\ t = P "Shelf.Tier".
-Proof.
-  exists ex_resources. eexists. eexists. eexists.
-  split; [right; left; reflexivity|]. split; [left; reflexivity|].
-  split; [vm_compute; tauto|]. split; [simpl; left; reflexivity|].
-  split; [simpl; right; left; reflexivity|]. split; reflexivity.
 Qed.
 
 (* ---------------------------------------------------------------- pins (T0): what Gen/SelectiveKw.v must say *)
